@@ -189,7 +189,18 @@ def build_cpp(names, log, extra_flags=None):
         base, _, var = n.partition("@")
         flags = list(CXXFLAGS) + list((extra_flags or {}).get(n, [])) + list((extra_flags or {}).get("@" + var, []) if var else [])
         src = os.path.join(VERIF, "harness", "drv_%s.cpp" % base)
-        key = file_hash(rs + hs + [src]) + hashlib.sha256(" ".join(flags).encode()).hexdigest()[:8]
+        # files the driver includes with #include "..." from harness/ (drv_blocks3.cpp includes drv_blocks.cpp; *.hh headers)
+        inc = []
+        try:
+            for m in re.findall(r'^\s*#\s*include\s+"([^"]+)"', open(src).read(), re.M):
+                q = os.path.join(VERIF, "harness", m)
+                if os.path.exists(q) and q not in hs: inc.append(q)
+                if os.path.exists(q) and q.endswith(".cpp"):
+                    for m2 in re.findall(r'^\s*#\s*include\s+"([^"]+)"', open(q).read(), re.M):
+                        q2 = os.path.join(VERIF, "harness", m2)
+                        if os.path.exists(q2) and q2 not in hs and q2 not in inc: inc.append(q2)
+        except OSError: pass
+        key = file_hash(rs + hs + sorted(inc) + [src]) + hashlib.sha256(" ".join(flags).encode()).hexdigest()[:8]
         d = os.path.join(CACHE, "cpp", n.replace("@", "__"))
         os.makedirs(d, exist_ok=True)
         exe = os.path.join(d, key[:24] + key[-8:])   # sources hash + flags hash
